@@ -44,6 +44,7 @@ void* bsearch(const void* key, const void* base, size_t nmemb, size_t size,
 static polyseed_lang the_lang;
 
 void harness(void) {
+    GHOST_INDICES_ARBITRARY();
     h_lang = &the_lang;
     _Bool sorted = nondet_bool();
     the_lang.is_sorted = sorted;
